@@ -92,3 +92,29 @@ Proof.
   intros Ha Hb. unfold Order.cmp_int, Order.bind. rewrite !rd_ok by assumption.
   unfold c_rstat_compare_int64. cbv zeta. rd_simpl. rewrite cmp3_c. reflexivity.
 Qed.
+
+(* ------------------------------------------------------------------ get_value_size (metadata/statistics.c) *)
+
+From Carquet Require Import Stats.StatsBuilderModel.
+
+(** get_value_size(type, type_length): the model's [value_size] for every physical type and a non-negative
+    type_length; a negative type_length converts to a size_t above every buffer (the model says BUF + 1) *)
+Lemma tie_mstat_get_value_size (t : Order.ptype) (tl : Z) :
+  0 <= tl < 2 ^ 31 ->
+  c_mstat_get_value_size (Order.ptype_code t) tl = Z.of_nat (StatsBuilderModel.value_size t tl).
+Proof.
+  intros H. unfold c_mstat_get_value_size, StatsBuilderModel.value_size.
+  destruct t; cbn [Order.ptype_code]; try reflexivity.
+  change (Z.eqb Gen.Enums_gen.E_CARQUET_PHYSICAL_FIXED_LEN_BYTE_ARRAY 0) with false.
+  cbv [Gen.Enums_gen.E_CARQUET_PHYSICAL_FIXED_LEN_BYTE_ARRAY Z.eqb Pos.eqb].
+  destruct (Z.ltb_spec tl 0); [lia|]. rewrite wrapu64_small by blia. lia.
+Qed.
+
+Lemma tie_mstat_get_value_size_neg (tl : Z) :
+  - 2 ^ 31 <= tl < 0 ->
+  c_mstat_get_value_size (Order.ptype_code Order.TFlba) tl = tl + 2 ^ 64.
+Proof.
+  intros H. unfold c_mstat_get_value_size. cbn [Order.ptype_code].
+  cbv [Gen.Enums_gen.E_CARQUET_PHYSICAL_FIXED_LEN_BYTE_ARRAY Z.eqb Pos.eqb].
+  unfold wrapu. symmetry. apply Z.mod_unique with (q := -1); blia.
+Qed.
